@@ -25,10 +25,10 @@ Fixpoint m_leap (n : nat) (la : Z) : Z :=
 Definition m_lfsr_step (bitwidth : Z) (lfsr : Z) (i : Z * Z * Z) : Z :=
   let '(load, req, seed) := i in
   let W := lfsr_width bitwidth in
-  if negb (load =? 0) then seed mod 2 ^ W
-  else if negb (req =? 0) then m_leap (Z.to_nat bitwidth) lfsr mod 2 ^ W
+  if negb (load =? 0) then low W seed
+  else if negb (req =? 0) then low W (m_leap (Z.to_nat bitwidth) lfsr)
   else lfsr.
-Definition m_lfsr_out (bitwidth lfsr : Z) : Z := lfsr mod 2 ^ bitwidth.   (* lfsr[:bitwidth] *)
+Definition m_lfsr_out (bitwidth lfsr : Z) : Z := low bitwidth lfsr.   (* lfsr[:bitwidth] *)
 Fixpoint m_lfsr_run (bitwidth lfsr : Z) (ins : list (Z * Z * Z)) : list Z :=
   match ins with
   | [] => []
@@ -44,10 +44,10 @@ Definition xo_counter_bw (bitwidth : Z) : Z :=
    ('r',n) = reg[n:] *)
 Definition m_xo_s0_next (s0 s1 : Z) : Z :=
   let _s1 := Z.lxor s0 s1 in
-  Z.lxor (Z.lxor (Z.lor (s0 * 2 ^ 55) (s0 / 2 ^ 9)) (_s1 * 2 ^ 14)) _s1.
+  Z.lxor (Z.lxor (Z.lor (Z.shiftl s0 55) (Z.shiftr s0 9)) (Z.shiftl _s1 14)) _s1.
 Definition m_xo_s1_next (s0 s1 : Z) : Z :=
-  let _s1 := Z.lxor s0 s1 in Z.lor (_s1 * 2 ^ 36) (_s1 / 2 ^ 28).
-Definition m_xo_output (s0 s1 : Z) : Z := (s0 + s1) mod 2 ^ 64.   (* output <<= kogge_stone(s0, s1) *)
+  let _s1 := Z.lxor s0 s1 in Z.lor (Z.shiftl _s1 36) (Z.shiftr _s1 28).
+Definition m_xo_output (s0 s1 : Z) : Z := low 64 (s0 + s1).   (* output <<= kogge_stone(s0, s1) *)
 
 (* registers: s0, s1, rand, counter, state *)
 Definition xo_state := (Z * Z * Z * Z * Z)%type.
@@ -57,13 +57,13 @@ Definition m_xo_step (bitwidth : Z) (st : xo_state) (i : Z * Z * Z) : xo_state :
   let '(load, req, seed) := i in
   let g := xo_gen_cycles bitwidth in
   let R := g * 64 in
-  let adv_s0 := m_xo_s0_next s0 s1 mod 2 ^ 64 in
-  let adv_s1 := m_xo_s1_next s0 s1 mod 2 ^ 64 in
-  let adv_rand := (rand * 2 ^ 64 + m_xo_output s0 s1) mod 2 ^ R in
-  if negb (load =? 0) then (seed mod 2 ^ 64, (seed / 2 ^ 64) mod 2 ^ 64, rand, counter, 0)
+  let adv_s0 := low 64 (m_xo_s0_next s0 s1) in
+  let adv_s1 := low 64 (m_xo_s1_next s0 s1) in
+  let adv_rand := low R (Z.shiftl rand 64 + m_xo_output s0 s1) in
+  if negb (load =? 0) then (low 64 seed, low 64 (Z.shiftr seed 64), rand, counter, 0)
   else if negb (req =? 0) then (adv_s0, adv_s1, adv_rand, 0, 1)
   else if state =? 1 then
-    if negb (counter =? g - 1) then (adv_s0, adv_s1, adv_rand, (counter + 1) mod 2 ^ xo_counter_bw bitwidth, state)
+    if negb (counter =? g - 1) then (adv_s0, adv_s1, adv_rand, low (xo_counter_bw bitwidth) (counter + 1), state)
     else st
   else st.
 (* outputs this cycle: ready = ~load & ~req & (state == GEN) & gen_done ; rand[-bitwidth:] *)
@@ -71,7 +71,7 @@ Definition m_xo_out (bitwidth : Z) (st : xo_state) (i : Z * Z * Z) : Z * Z :=
   let '(s0, s1, rand, counter, state) := st in
   let '(load, req, seed) := i in
   let g := xo_gen_cycles bitwidth in
-  (b2z ((load =? 0) && (req =? 0) && (state =? 1) && (counter =? g - 1)), rand / 2 ^ (g * 64 - bitwidth)).
+  (b2z ((load =? 0) && (req =? 0) && (state =? 1) && (counter =? g - 1)), Z.shiftr rand (g * 64 - bitwidth)).
 Fixpoint m_xo_run (bitwidth : Z) (st : xo_state) (ins : list (Z * Z * Z)) : list (Z * Z) :=
   match ins with
   | [] => []
@@ -98,8 +98,8 @@ Definition m_tv_par (k : nat) (st : tstate) : list bool * tstate :=
   let '(a, b, c) := st in
   let taps := map (m_tv_taps a b c) (idxs k) in
   (map out4 taps,
-   (concat_bits a (map fa4 taps) mod 2 ^ 93, concat_bits b (map fb4 taps) mod 2 ^ 84,
-    concat_bits c (map fc4 taps) mod 2 ^ 111)).
+   (low 93 (concat_bits a (map fa4 taps)), low 84 (concat_bits b (map fb4 taps)),
+    low 111 (concat_bits c (map fc4 taps)))).
 
 Definition tv_init_cycles (bpc : Z) : Z := 1152 / bpc.
 Definition tv_gen_cycles (bitwidth bpc : Z) : Z := ceil_div bitwidth bpc.
@@ -114,10 +114,10 @@ Definition m_tv_step (bitwidth bpc : Z) (s : tv_state) (i : Z * Z * Z) : tv_stat
   let '(load, req, seed) := i in
   let k := Z.to_nat bpc in
   let adv := m_tv_par k abc in
-  let adv_rand := concat_bits rand (fst adv) mod 2 ^ bitwidth in   (* concat(rand, *output) *)
-  let cnt1 := (counter + 1) mod 2 ^ tv_counter_bw bitwidth bpc in
+  let adv_rand := low bitwidth (concat_bits rand (fst adv)) in   (* concat(rand, *output) *)
+  let cnt1 := low (tv_counter_bw bitwidth bpc) (counter + 1) in
   if negb (load =? 0) then
-    (((seed / 2 ^ 80) mod 2 ^ 80, seed mod 2 ^ 80, 7 * 2 ^ 108), rand, 0, 1)
+    ((low 80 (Z.shiftr seed 80), low 80 seed, Z.shiftl 7 108), rand, 0, 1)
   else if negb (req =? 0) then (snd adv, adv_rand, 0, 2)
   else if state =? 1 then
     if negb (counter =? tv_init_cycles bpc) then (snd adv, rand, cnt1, state) else s
